@@ -22,6 +22,11 @@ fn lfo_freq(fs: f32) -> BoxedStrategy<f32> {
         }),
         // tiny increments 0..4 counts
         2 => (0.0f64..4.0).prop_map(move |c| (c * fsd / TWO24F) as f32),
+        // increments near k * 2^j counts
+        2 => (0u32..24, 1u32..16, prop_oneof![1 => Just(0.0f64), 3 => -1100.0f64..1100.0]).prop_map(move |(j, k, d)| {
+            let inc = (((k as u64) << j) as f64 + d).clamp(0.0, TWO24F);
+            ((inc * fsd / TWO24F) as f32).min(fs)
+        }),
         // close to the sample rate
         1 => (0u32..4).prop_map(move |d| f32::from_bits(fs.to_bits() - d)),
     ]
@@ -53,6 +58,8 @@ fn lfo_op(fs: f32) -> BoxedStrategy<LfoOp> {
         1 => (any::<u16>(), any::<u16>(), any::<u16>()).prop_map(|(m, j, k)| LfoOp::NegPhasePair { m, j, k }),
         1 => Just(LfoOp::Reset),
         2 => (0u8..120).prop_map(LfoOp::Read),
+        1 => (lfo_freq(fs), lfo_freq(fs), proptest::sample::select(vec![255u16, 256, 257, 512, 20, 3])).prop_map(|(a, b, n)| LfoOp::FreqBurst { a, b, n }),
+        1 => prop_oneof![6 => (1u32..=64).prop_map(LfoOp::Tick), 1 => Just(LfoOp::Tick(70_000)), 1 => Just(LfoOp::Tick(16_384)), 1 => Just(LfoOp::Tick(1024))],
     ]
     .boxed()
 }
@@ -156,6 +163,8 @@ fn walk_case() -> BoxedStrategy<WalkCase> {
         3 => proptest::sample::select(vec![1u32, 2, 3, 7, 16, 100, 4099, 16383, 16384, 16385, 8_388_607, 8_388_608, 8_388_609, 16_777_215, 16_777_214, 16_760_832]),
         3 => (0.0f64..(TWO24F.ln())).prop_map(|x| (x.exp() as u32).max(1).min(TWO24 - 1)),
         1 => 1u32..TWO24,
+        // near k * 2^j: where index / fraction bit fields of the counter hand over
+        3 => (10u32..24, 1u32..16, prop_oneof![1 => Just(0i64), 3 => -1100i64..1100]).prop_map(|(j, k, d)| (((k as i64) << j) + d).clamp(1, TWO24 as i64 - 1) as u32),
     ];
     (0u32..TWO24, inc, 20u32..600).prop_map(|(start, inc, count)| WalkCase { start, inc, count }).boxed()
 }
